@@ -3,8 +3,8 @@ namespace MayVerif.Park
 
 set_option hygiene false in
 macro "destruct_inv" : tactic => `(tactic|
-  obtain ⟨hbad, hrun, hktail, hytail, hslot, hheldK, hheldKc, hheldT, hheldC, hheldV, hqueued, hcnt, hu3, hyt, hwk, hb2,
-    hdr1, hdr2, hdr3, hdr4, hi2, hi4, hcb1, hcb2, hcb3, hcb4, hr0, hr1, hpown, hplive, htm1, htm2, htm3, htm4, htm5, he1, he2, he2b, he3, he4, he5, he6, hf6⟩ := h)
+  obtain ⟨hbad, hrun, hktail, hytail, hslot, hheldK, hheldKc, hheldKt, hheldT, hheldC, hheldV, hqueued, hcnt, hu3, hyt, hwk, hb2,
+    hdr1, hdr2, hdr3, hdr4, hi2, hi4, hcb1, hcb2, hcb3, hcb4, hr0, hr1, hpown, hplive, htm1, htm2, htm3, htm4, htm5, htm6, hdl1, hdl3, hdl4, hdl2, hdu1, hdu2, hdu3, hkc1, hkc2, he1, he2, he2b, he3, he4, he5, he6, hf6, hg0, hg1, hg2⟩ := h)
 
 macro "fin_inv" : tactic => `(tactic|
   (constructor <;> (try simp only [sched, ret, cpanic, yieldNow]) <;> (try dsimp only []) <;> first | grind | grind (splits := 40)))
